@@ -412,7 +412,10 @@ func (c *CPU6502) Load(fileName string) (loadAddress uint16, progLen uint16, err
 	}
 
 	loadAddress = uint16(data[1])*256 + uint16(data[0])
-	c.CopyToMem(data[2:], loadAddress)
+	err = c.CopyToMem(data[2:], loadAddress)
+	if err != nil {
+		return 0, 0, fmt.Errorf("unable to load binary: %v", err)
+	}
 
 	return loadAddress, uint16(len(data) - 2), nil
 }
